@@ -320,7 +320,7 @@ def make_case(cid, rng, lines, mut):
     # `ser` is there for the correspondence only (serialize of an ill-formed map may panic: same on both sides)
     cl = ["new 2 0 0", cg.loadtext_line(mask, lines), "snap", "ser"]
     if "beta-out-of-range" not in ana["defects"]:
-        cl.append("wf")   # the two drivers print `wf` differently on out-of-range maps (second flag)
+        cl.append("wf")   # the two drivers still print the second `wf` flag differently on some out-of-range maps
     sig = f"mut={mut};kind={ana['kind']};defects={','.join(ana['defects'])}"
     return Case(cid, cl, oracle="c10", meta={"sig": sig, "ana": ana})
 
